@@ -179,7 +179,7 @@ func (ke *kindEnv) base(st *pstate, a *Sym) KindSet {
 			return ks(kSlice)
 		case isReflectFunc(fn, "MakeSlice"):
 			return ks(kSlice)
-		case isReflectFunc(fn, "MakeMap"):
+		case isReflectFunc(fn, "MakeMap"), isReflectFunc(fn, "MakeMapWithSize"):
 			return ks(kMap)
 		case isReflectFunc(fn, "Append"):
 			return ks(kSlice)
